@@ -92,20 +92,25 @@ inductive Kernel
   | expMH | expCWMH | expPCN | expMALA | legMH | legCWMH | legPCN | legMALA
   deriving DecidableEq, Repr
 
-/-- Does the kernel's `if` contain `not np.isnan(target_eval_star)`? -/
+/-- Does the kernel's `if` contain `not np.isnan(target_eval_star)`?  (All eight do since /repo
+    commit d1cc7b3; legacy MALA spells it `np.isnan(logpi_eval_star) == False`.) -/
 def Kernel.guardNan : Kernel → Bool
-  | .expMH | .expCWMH | .expMALA => true
+  | .expMH | .expCWMH | .expMALA | .expPCN | .legMH | .legCWMH | .legPCN => true
   | .legMALA => true                       -- `np.isnan(logpi_eval_star) == False`
-  | .expPCN | .legMH | .legCWMH | .legPCN => false
 
-/-- Does the kernel's `if` contain `not np.isinf(target_eval_star)`? -/
+/-- Does the kernel's `if` contain `not np.isinf(target_eval_star)`?  (All but legacy MALA.) -/
 def Kernel.guardInf : Kernel → Bool
-  | .expMH | .expCWMH | .expMALA => true
-  | .legMALA | .expPCN | .legMH | .legCWMH | .legPCN => false
+  | .expMH | .expCWMH | .expMALA | .expPCN | .legMH | .legCWMH | .legPCN => true
+  | .legMALA => false
 
-/-- The accept condition: `(log_u <= min(0, ratio)) and <guards on the proposal's value>`. -/
+/-- The accept test with explicit guard flags:
+    `(log_u <= min(0, ratio)) [and not isnan(star)] [and not isinf(star)]`. -/
+def acceptsG (gn gi : Bool) (ell ratio tstar : XVal) : Bool :=
+  le ell (pyMin0 ratio) && (!gn || !tstar.isNan) && (!gi || !tstar.isInf)
+
+/-- The accept condition of kernel `k`. -/
 def accepts (k : Kernel) (ell ratio tstar : XVal) : Bool :=
-  le ell (pyMin0 ratio) && (!k.guardNan || !tstar.isNan) && (!k.guardInf || !tstar.isInf)
+  acceptsG k.guardNan k.guardInf ell ratio tstar
 
 /-- Sampler state touched by a transition: point, cached log-density (for pCN: cached
     log-LIKELIHOOD), cached gradient (MALA only, `[]` otherwise), scale(s). -/
